@@ -96,6 +96,8 @@ theorem GoodP.map {P Q : EP} : ∀ (v : View) (t : RState), GoodP P v t →
       · intro hl; exact iha inner (h.2.2.2.2.1 hl) (fun e x cur he => hm e x cur (by simp [effsOf, he]))
       · intro hl; exact ihb inner (h.2.2.2.2.2 hl) (fun e x cur he => hm e x cur (by simp [effsOf, he]))
   | «show» c a b _ _ => intro t h _; cases t <;> simp only [GoodP] at h
+  | scope sid d kid _ => intro t h _; cases t <;> simp only [GoodP] at h
+  | forRows sel lists row _ => intro t h _; cases t <;> simp only [GoodP] at h
   | forKeyed sel lists =>
     intro t h hm
     cases t <;> simp only [GoodP] at h ⊢
@@ -123,6 +125,8 @@ theorem good_iff {K : Nat} {st : St} : ∀ (v : View) (t : RState), Good K st v 
   | dynText x => intro t; cases t <;> simp [Good, GoodP]
   | either c a b iha ihb => intro t; cases t <;> simp [Good, GoodP, iha, ihb]
   | «show» c a b _ _ => intro t; cases t <;> simp [Good, GoodP]
+  | scope sid d kid _ => intro t; cases t <;> simp [Good, GoodP]
+  | forRows sel lists row _ => intro t; cases t <;> simp [Good, GoodP]
   | forKeyed sel lists => intro t; cases t <;> simp [Good, GoodP]
 
 
@@ -181,6 +185,10 @@ theorem zEffs_held : ∀ (t : RState), zEffs t.held = effsOf t := by
   | either e c a b left inner _ => simp [RState.held, zEffs, effsOf, optEffs]
   | «show» e m c a b left inner _ => simp [RState.held, zEffs, effsOf, optEffs]
   | forK e sel lists ks texts => rfl
+  | scope m sid isSig inner ih => simp only [RState.held, effsOf, ih]
+  | rows e sel lists row ks items _ => simp [RState.held, zEffs, effsOf, optEffs]
+  | rowCons k r rest ihr ihrest => simp only [RState.held, zEffs_append, ihr, ihrest, effsOf]
+  | rowNil => rfl
 
 /-! ## dropping effects -/
 
@@ -321,6 +329,11 @@ def viewOf : RState → View
   | .either _ c a b _ _ => .either c a b
   | .show _ _ c a b _ _ => .show c a b
   | .forK _ sel lists _ _ => .forKeyed sel lists
+  -- (not used for these: no state of a view of the theorems' class has this shape)
+  | .scope _ _ _ inner => viewOf inner
+  | .rows _ sel lists row _ _ => .forRows sel lists row
+  | .rowCons _ _ _ => .unit
+  | .rowNil => .unit
 
 theorem GoodAttrP.viewOf {P : EP} : ∀ {a : Attr} {s : AState}, GoodAttrP P a s → viewOfA s = a := by
   intro a s h
@@ -349,7 +362,41 @@ theorem GoodP.viewOf {P : EP} : ∀ (v : View) (t : RState), GoodP P v t → RVi
     intro t h; cases t <;> simp only [GoodP] at h
     simp [RView.viewOf, h.1, h.2.1, h.2.2.1]
   | «show» c a b _ _ => intro t h; cases t <;> simp only [GoodP] at h
+  | scope sid d kid _ => intro t h; cases t <;> simp only [GoodP] at h
+  | forRows sel lists row _ => intro t h; cases t <;> simp only [GoodP] at h
   | forKeyed sel lists => intro t h; cases t <;> simp only [GoodP] at h; simp [RView.viewOf, h.1, h.2.1]
+
+/-- states of the views of the theorems' class contain no component-local state -/
+theorem GoodP.locals_nil {P : EP} : ∀ (v : View) (t : RState), GoodP P v t → t.locals = [] := by
+  intro v
+  induction v with
+  | text s => intro t h; cases t <;> simp only [GoodP] at h; rfl
+  | unit => intro t h; cases t <;> simp only [GoodP] at h; rfl
+  | elem tag attrs kid ih =>
+    intro t h; cases t <;> simp only [GoodP] at h
+    next n tag' as k => simp only [RState.locals, ih k h.2.2]
+  | seq a b iha ihb =>
+    intro t h; cases t <;> simp only [GoodP] at h
+    next sa sb => simp only [RState.locals, iha sa h.1, ihb sb h.2, List.append_nil]
+  | dynText x => intro t h; cases t <;> simp only [GoodP] at h; rfl
+  | either c a b iha ihb =>
+    intro t h; cases t <;> simp only [GoodP] at h
+    next e c' a' b' left inner =>
+      simp only [RState.locals]
+      cases hl : left with
+      | true => exact iha inner (h.2.2.2.2.1 hl)
+      | false => exact ihb inner (h.2.2.2.2.2 hl)
+  | «show» c a b _ _ => intro t h; cases t <;> simp only [GoodP] at h
+  | forKeyed sel lists => intro t h; cases t <;> simp only [GoodP] at h; rfl
+  | scope sid d kid _ => intro t h; cases t <;> simp only [GoodP] at h
+  | forRows sel lists row _ => intro t h; cases t <;> simp only [GoodP] at h
+
+theorem dropState_eq {st : St} {t : RState} (h : t.locals = []) : dropState st t = dropAll st t.held := by
+  simp only [dropState, h, killAll]
+
+theorem replace_eq {v : View} {old : RState} (st : St) (h : old.locals = []) :
+    replace v old st = ((build v st).1, dropAll (build v st).2 old.held, (build v st).1.tops + old.tops) := by
+  simp only [replace, dropState_eq h]
 
 /-- a tree held by the task of a dropped effect: a state of a well-formed core view whose effects exist -/
 structure ZTree (K : Nat) (st : St) (h : RState) : Prop where
@@ -423,6 +470,8 @@ theorem GoodP.bound {K : Nat} {st : St} : ∀ (v : View) (t : RState), GoodP (Ef
         | true => exact iha inner (h.2.2.2.2.1 hl) e he
         | false => exact ihb inner (h.2.2.2.2.2 hl) e he
   | «show» c a b _ _ => intro t h _ _; cases t <;> simp only [GoodP] at h
+  | scope sid d kid _ => intro t h _ _; cases t <;> simp only [GoodP] at h
+  | forRows sel lists row _ => intro t h _ _; cases t <;> simp only [GoodP] at h
   | forKeyed sel lists =>
     intro t h e he
     cases t <;> simp only [GoodP] at h
@@ -504,6 +553,8 @@ theorem held_ok {K : Nat} {st : St} : ∀ (v : View) (t : RState), GoodP (EffWf 
         have hv := GoodP.viewOf b inner hg
         exact ⟨by rw [hv]; exact hg, by rw [hv]; exact hw.2, by rw [hv]; exact hc.2⟩
   | «show» c a b _ _ => intro t h _ _ _ _; cases t <;> simp only [GoodP] at h
+  | scope sid d kid _ => intro t h _ _ _ _; cases t <;> simp only [GoodP] at h
+  | forRows sel lists row _ => intro t h _ _ _ _; cases t <;> simp only [GoodP] at h
   | forKeyed sel lists =>
     intro t h _ _ z hz
     cases t <;> simp only [GoodP] at h
